@@ -17,7 +17,7 @@ PROPS = {
     "C06": {"families": [("c06", 1), ("ctxcancel", 1), ("ctxrestart", 1), ("stoprestart", 1)], "crash_is_violation": True, "judge": ["C06"], "quick_s": 20, "thorough_s": 600},
     "C07": {"families": [("faultfree", 1), ("c07rounds", 3), ("c07stale", 2), ("c02stop", 1), ("c07restart", 1)], "crash_is_violation": True, "judge": ["C07"], "quick_s": 20, "thorough_s": 600},
     "C08": {"families": [("c08", 2), ("mixed", 1), ("faultfree", 1), ("ctxcancel", 1), ("ctxrestart", 1), ("stoprestart", 1)], "crash_is_violation": True, "judge": ["C08"], "quick_s": 20, "thorough_s": 600},
-    "C09": {"families": [("c09stop", 2), ("mixed", 1), ("faultfree", 1), ("c11", 1)], "level": "fault_enumeration", "judge": ["C09"], "quick_s": 20, "thorough_s": 600, "crash_is_violation": True},
+    "C09": {"families": [("c09stop", 3), ("mixed", 1), ("faultfree", 1), ("c11", 1), ("c09probe", 1)], "level": "fault_enumeration", "judge": ["C09"], "quick_s": 20, "thorough_s": 600, "crash_is_violation": True},
     "C10": {"families": [("c10", 2), ("mixed", 1), ("pause", 1), ("sameid", 1)], "crash_is_violation": True, "judge": ["C10"], "quick_s": 20, "thorough_s": 600},
     "C11": {"families": [("c11", 2), ("c11lock", 1)], "judge": ["C11"], "quick_s": 20, "thorough_s": 600, "crash_is_violation": True},
     "C12": {"families": [("c12", 1)], "crash_is_violation": True, "judge": ["C12"], "quick_s": 20, "thorough_s": 600},
